@@ -514,6 +514,9 @@ impl Property for C06 {
         sp.max_base = 4;
         sp.max_compound = 1;
         sp.max_users = 0;
+        // the sweep recompiles once per output byte: keep the swept dictionary small
+        sp.homographs = 0;
+        sp.many_units = false;
         let sink = (dic_model(sp), any::<bool>()).prop_map(|(dic, short_write)| Case::Sink { dic, short_write });
         prop_oneof![tier.pick(60, 40) => build, 1 => sink].boxed()
     }
